@@ -150,7 +150,18 @@ pub fn run(reg: &[Box<dyn TypeOps>], cfg: &Cfg, out: &mut dyn Write) {
                                 let maxv = if w >= 8 { u64::MAX } else { (1u64 << (8 * w)) - 1 };
                                 if (n as u64) <= maxv && p + w <= sizes[0] { let enc = LenS { size: w, align: 1, be }.encode(n as u128); m[p..p + w].copy_from_slice(&enc); cases.push(m); }
                             }
-                            Constraint::Utf8(a, b) => { if b > a && b <= sizes[0] { let i = a + rng.below((b - a) as u64) as usize; m[i] = 0xff; cases.push(m); } }
+                            Constraint::Utf8(a, b) => {
+                                if b > a && b <= sizes[0] {
+                                    if rng.chance(1, 2) {
+                                        // a multi-byte character cut off by the end of the text (`Utf8Error::error_len() == None`):
+                                        // the length is fixed, so no further input can complete it
+                                        m[b - 1] = [0xc3u8, 0xe2, 0xf0][rng.below(3) as usize];
+                                    } else {
+                                        let i = a + rng.below((b - a) as u64) as usize; m[i] = 0xff;
+                                    }
+                                    cases.push(m);
+                                }
+                            }
                         }
                     }
                 }
